@@ -334,6 +334,23 @@ check(const json& c)
     }
   if (!dynamic_cast<const ProjDataInfoCylindricalNoArcCorr*>(pdi.get()) && !dynamic_cast<const ProjDataInfoGenericNoArcCorr*>(pdi.get()))
     return Result::reject("not a no-arc-correction geometry");
+  // ---- which ring differences are "covered": the harness's own statement of the segments of (span, max ring difference, trim), so
+  // that clause 4 does not take "covered" from whatever segment table the code built (c12_history.h (v)); objects reached through a
+  // history must equal this fresh twin
+  {
+    const Result ro = vh::check_own_segments(*pdi, c["pdi"]);
+    if (ro.failed())
+      return ro;
+    const Result rs = vh::check_own_sampling(*pdi, *sc, c["pdi"]);
+    if (rs.failed())
+      return rs;
+  }
+  if (pdi->get_min_segment_num() > 0 || pdi->get_max_segment_num() < 0)
+    stats().cls("segment range without segment 0");
+  if (pdi->get_num_tangential_poss() == 1)
+    stats().cls("a single tangential position");
+  if (c["scanner"]["type"].get<int>() < 0 && (sc->get_num_rings() == 5 || sc->get_num_rings() == 7))
+    stats().cls("5 or 7 rings");
   // ---- object history: the object under test is derived from another, used object; pdi (constructed directly) is its fresh twin ----
   // (the history works on its OWN Scanner object: the fresh twin shares nothing with the objects of the history)
   const bool with_history = c.contains("hist") && c["hist"].is_object();
@@ -416,12 +433,38 @@ gen(Src& s, int size)
   so.allow_blocks = true;
   so.allow_predefined = false;
   c["scanner"] = vg::gen_scanner(s, so);
+  // (domain audit) vg::gen_scanner builds the number of rings as a product of small block / bucket counts (1..4 x 1..2 x 1..3): 5 and 7
+  // rings were never generated ("1..N rings" in the quantifier; odd counts > 3).  One block of 5 or 7 crystals, one block per bucket.
+  if (size >= 30 && s.chance(1, 8))
+    {
+      const int r = s.coin() ? 5 : 7;
+      c["scanner"]["rings"] = r;
+      c["scanner"]["ax_cryst_per_block"] = r;
+      c["scanner"]["ax_blocks_per_bucket"] = 1;
+    }
   shared_ptr<Scanner> sc = vg::make_scanner(c["scanner"]);
   vg::PdiOpts po;
   po.allow_asym_segments = true;
   po.allow_clamped_seg0 = true;
   c["pdi"] = vg::gen_pdi(s, *sc, po);
   c["pdi"]["arccorr"] = false;
+  // (domain audit) a single tangential position (min == max == 0; vg::gen_pdi starts at 2)
+  if (s.chance(1, 25))
+    c["pdi"]["tang"] = 1;
+  // (domain audit) "reduced segment range": ProjDataInfo::reduce_segment_range accepts any sub-range (its only precondition are the
+  // two assertions min >= get_min_segment_num(), max <= get_max_segment_num()); vg::gen_pdi always keeps segment 0.  Ranges a..b with
+  // 0 < a <= b (or their mirror image), chosen inside the harness's own segment table so that vg::make_pdi's clamping cannot empty it.
+  {
+    vh::OwnSegments os;
+    json untrimmed = c["pdi"];
+    untrimmed["trim"] = json::object();
+    if (vh::own_segments(os, untrimmed) && os.max_seg >= 1 && s.chance(1, 10))
+      {
+        const int a = int(s.range(1, os.max_seg)), b = int(s.range(a, os.max_seg));
+        const bool neg = s.coin();
+        c["pdi"]["trim"] = { { "max_seg", neg ? -a : b }, { "min_seg", neg ? -b : a }, { "tang_cut", int(s.range(0, 2)) } };
+      }
+  }
   // known finding C01-H1 (c12_history.h): blocks/generic data with span > 1 lose ring pairs as soon as a setter makes the
   // Michelogram tables be rebuilt; the segment reduction of the trim (vg::make_pdi: reduce_segment_range) is such a setter
   if (!vh::exclusions_off() && sc->get_scanner_geometry() != "Cylindrical" && c["pdi"]["span"].get<int>() > 1 && c["pdi"]["trim"].contains("max_seg"))
@@ -527,6 +570,80 @@ fixed_cases(int tier)
             }
         }
     }
+  // (domain audit) corners of the generator's new sub-domains, always run: 5 and 7 rings, segment ranges without segment 0 (positive
+  // only, negative only, a single segment), a single tangential position, on small user-defined scanners (cylindrical, TOF, blocks)
+  {
+    auto small_scanner = [](int ndet, int rings, const char* geom, int tof_poss) {
+      json sc;
+      sc["type"] = -1;
+      sc["ndet"] = ndet;
+      sc["rings"] = rings;
+      sc["tr_cryst_per_block"] = geom[0] == 'B' ? ndet / 4 : 1;
+      sc["tr_blocks_per_bucket"] = 1;
+      sc["ax_cryst_per_block"] = rings;
+      sc["ax_blocks_per_bucket"] = 1;
+      sc["singles_units"] = 0;
+      sc["max_tang"] = ndet - 1;
+      sc["radius"] = 100.;
+      sc["doi"] = 0.;
+      sc["ring_spacing"] = 4.;
+      sc["bin_size"] = 2.;
+      sc["tilt"] = 0.;
+      sc["tof_poss"] = 0;
+      sc["geometry"] = geom;
+      if (geom[0] == 'B')
+        {
+          sc["ax_crystal_spacing"] = 4.;
+          sc["tr_crystal_spacing"] = 4.;
+          sc["block_gap_ax"] = 0.;
+          sc["block_gap_tr"] = 0.;
+          sc["radius"] = std::floor(0.999 * (4. * (ndet / 4)) / 2. * 8.) / 8.; // square of 4 buckets: R = side / (2 tan(pi/4))
+        }
+      if (tof_poss > 0)
+        {
+          const double fov_d = 2. * vg::make_scanner(sc)->get_max_FOV_radius();
+          sc["tof_poss"] = tof_poss;
+          sc["tof_size"] = fov_d / 0.149896229 / tof_poss;
+          sc["tof_res"] = fov_d / 0.149896229 / 4;
+        }
+      return sc;
+    };
+    struct Corner
+    {
+      int ndet, rings;
+      const char* geom;
+      int tof_poss, span, max_delta, mash, tang, tof_mash, min_seg, max_seg, tang_cut;
+      bool trim;
+    };
+    const std::vector<Corner> corners = {
+      { 12, 5, "Cylindrical", 0, 1, 4, 1, 11, 0, 1, 3, 0, true },           // 5 rings, segments 1..3
+      { 12, 5, "Cylindrical", 0, 3, 3, 2, 10, 0, -1, -1, 1, true },         // only the (cut) last negative segment of span 3
+      { 8, 7, "Cylindrical", 5, 2, 6, 1, 7, 1, 2, 3, 0, true },             // 7 rings, even span, TOF, segments 2..3
+      { 8, 7, "Cylindrical", 5, 5, 5, 4, 1, 5, 1, 1, 0, true },             // a single tangential position, a single positive segment
+      { 10, 5, "Cylindrical", 0, 1, 4, 1, 1, 0, 0, 0, 0, false },           // a single tangential position, all segments
+      { 8, 5, "BlocksOnCylindrical", 0, 1, 4, 1, 7, 0, -3, -2, 0, true },   // blocks, 5 rings, negative segments only
+      { 8, 7, "BlocksOnCylindrical", 0, 3, 6, 1, 6, 0, 1, 2, 1, true },     // blocks, 7 rings, span 3, positive segments only
+    };
+    int k = 0;
+    for (auto& co : corners)
+      {
+        json c;
+        c["scanner"] = small_scanner(co.ndet, co.rings, co.geom, co.tof_poss);
+        c["pdi"] = { { "span", co.span },   { "max_delta", co.max_delta }, { "views", co.ndet / 2 / co.mash }, { "tang", co.tang },
+                     { "arccorr", false }, { "tof_mash", co.tof_mash },   { "trim", json::object() } };
+        if (co.trim)
+          c["pdi"]["trim"] = { { "max_seg", co.max_seg }, { "min_seg", co.min_seg }, { "tang_cut", co.tang_cut } };
+        v.push_back(c);
+        // ... and reached through an object history
+        PrngSrc ph(uint64_t(7001 + k++));
+        const json h = vh::gen_history(ph, vg::make_scanner(c["scanner"]), c["pdi"]);
+        if (!h.is_null())
+          {
+            c["hist"] = h;
+            v.push_back(c);
+          }
+      }
+  }
   return v;
 }
 
